@@ -95,8 +95,8 @@ add("C11", "tlc-fog", "Antichain, Commute, MarkIsExplores, RefusedUnchanged, Val
     "(answer in the acceptable set defined from containment and sorted neighbours) are model checked over every "
     "exploration sequence of bounded depth; every transition is replayed on real fog objects, every earlier object "
     "is re-examined for immutability, serialisation is decoded with an independent hex-prefix decoder and every "
-    "query key is asked after every transition; recorded histories of real fog objects over all 16 nibbles are "
-    "validated by TLC")
+    "query key is asked after every transition; generated histories of real fog objects over all 16 nibbles and the "
+    "recorded lineages of the fog objects in the repository's own tests are validated by TLC against Trace_Fog.tla")
 add("C17", "tlc-scratchdb", "the action properties WrappedOnlyOnCommit, CommitApplies (last action per key wins, deletes "
     "only if requested), AbortKeeps (Exception and BaseException exits) and BufferEmptiedOnExit and the invariant "
     "ReadSeesLatest are model checked over every initial content and every call sequence; all behaviours up to a "
